@@ -82,6 +82,23 @@ def run_case(case):
         if case['fileobj']:
             with open(f, 'wb') as fo:
                 w = drive.collect(rx.from_(rows).pipe(parquet.dump_to_file(fo, schema, **kw)))
+        elif case.get('live'):
+            # a live source; the file is read with pyarrow from INSIDE the completion callback: completion means the footer is written
+            from rx.subject import Subject
+            src, inside, w = Subject(), [], drive.Result()
+
+            def done():
+                w.completed += 1
+                try:
+                    inside.append(pq.read_table(f).num_rows)
+                except Exception as e:
+                    inside.append(e)
+            src.pipe(parquet.dump_to_file(f, schema, **kw)).subscribe(on_next=w.items.append, on_error=lambda e: setattr(w, 'error', e), on_completed=done)
+            for row in rows:
+                src.on_next(row)
+            src.on_completed()
+            if w.completed == 1 and w.error is None and inside[0] != len(rows):
+                raise Violation('parquet.dump_to_file signalled completion before the file was complete (read from the completion callback: %r)' % (inside[0],), **ctx)
         else:
             dump = rx.from_(rows).pipe(parquet.dump_to_file(f, schema, **kw))
             w = drive.collect(dump)
@@ -148,7 +165,7 @@ def case_gen(draw):
     return {'rows': rows, 'dump_batch': b, 'load_batch': draw(st.one_of(st.integers(1, 8), st.integers(1, 2000))),
             'row_group': draw(st.sampled_from([None, None, 1, 3, 100])), 'compression': draw(st.sampled_from(['NONE', 'snappy', 'gzip', 'zstd'])),
             'cols': cols, 'fileobj': draw(st.booleans()), 'seed': draw(st.integers(0, 99)), 'nulls': draw(st.booleans()), 'twice': draw(st.integers(0, 3)) == 0, 'cursor': draw(st.booleans()),
-            'names': draw(st.sampled_from([None, None, 'methods']))}
+            'names': draw(st.sampled_from([None, None, 'methods'])), 'live': draw(st.integers(0, 3)) == 0}
 
 
 def boundary(tier):
